@@ -281,6 +281,16 @@ def run(ctx):
         ctx.discharged += 1
         dis += [idx[b] for b in badidx]
     ctx.cov['disagreements_checked'] = len(dis)
+    # harness self-test: shift one implementation value by 1e-9 -> the comparison must flag it
+    for c0, r0 in zip(cases, results):
+        if r0['status'] == 'Ok' and c0['p'] == 2:
+            r1 = dict(r0)
+            ad = [list(a) for a in r0['ad']]
+            ad[0][0] = (float.fromhex(ad[0][0]) + 1e-9).hex()
+            r1['ad'] = ad
+            ctx.selftest('C02_selftest', HEADER + 'Definition results := [\n' + coq_case(c0, r0, [0, 1]) + ';\n'
+                         + coq_case(c0, r1, [0, 1]) + '].\nEval vm_compute in bad_cases 0 results.\n')
+            break
     for ci in dis[:3]:
         c, r = cases[ci], results[ci]
         ctx.broken.append('correspondence C02 model<->impl differs for knot vector #%d' % ci)
